@@ -50,7 +50,11 @@ VALUES = [
     "", "plain", "with space", "quote\"s and 'single'", "k=v a=b", "café \U0001f600", "line1\nline2", "tab\there",
     [1, [2, {"k": "v"}], []], {"a": {"b": [None, False]}, "z": 0}, ["a long list of strings"] * 6,
 ]
-TIMESTAMPS = [1443193754, 1443193754.000001, 1443193754.999999, 0, 2 ** 31, 1600000000.5]
+import math
+
+TIMESTAMPS = [1443193754, 1443193754.000001, 1443193754.999999, 0, 2 ** 31, 1600000000.5,
+              math.nextafter(1443193754.0, 0), math.nextafter(1443193755.0, 0), 1443193754.9999996,
+              1443193754.9999994, 0.9999996, 59.9999997, 1443193799.9999998]
 LEVELS = [[1], [3, 2, 1], [12, 1]]
 
 
@@ -89,7 +93,7 @@ def program_messages():
 def synthetic_messages():
     out = []
     for i, v in enumerate(VALUES):
-        for ts in (TIMESTAMPS if i < 3 else TIMESTAMPS[:2]):
+        for ts in (TIMESTAMPS if i < 3 else TIMESTAMPS[:2] + [TIMESTAMPS[6 + i % 7]]):
             lv = LEVELS[i % len(LEVELS)]
             base = {"task_uuid": "8c668cde-235b-4872-af4e-caea524bd1c0", "task_level": lv, "timestamp": ts}
             out.append(dict(base, message_type="app:m", value=v))
